@@ -113,7 +113,7 @@ class C15(Prop):
     pid = "C15"
     prop_file = "Props/C15.v"
     module = "Props.C15"
-    gen_deps = ["Roff", "Palette", "Style", "RoffFn"]
+    gen_deps = ["Roff", "Palette", "Style", "RoffFn", "RoffCrateFn", "CansiFn"]
     harness = ("h-roff", "hroff")
     nontrivial_rule = ("cases: ONE segment, every pair of foreground/background in {unset, 0..15} (17 x 17) x every subset of the 8 effects (codes 1 2 3 4 5 7 8 9) "
                        "-- exhaustive, the segment text cycling through 16 texts with leading '.', ''', '\\', '-', newlines; seeded random texts of 1-5 segments "
@@ -123,8 +123,15 @@ class C15(Prop):
                        "of F15-3 (bold and faint together). Outside D (accumulated styles, 256-colour / RGB forms, other CSI sequences, malformed or unterminated sequences, "
                        "the F15-3 class): implementation vs model only. add_color_to_roff alone (private; through a shadow copy of lib.rs): unset, the 16 colours, all 256 "
                        "indexed colours, RGB colours, x both requests, three-way. non-trivial = distinct case whose document is not empty")
-    trusted = ["cansi 2.2.1 (parse, categorise_text_v3, adjust_sgr) and roff 0.2.1 (Roff::control/text/to_roff, escape_inline, escape_leading_cc) are third-party: "
-               "transcribed by hand in Model/Roff.v, tied by the correspondence runs only",
+    trusted = ["cansi 2.2.1 (parse, categorise_text_v3, handle_seq, adjust_sgr, CategorisedSlice::with_sgr) and roff 0.2.1 (Roff::new/control/text/to_roff, Line::render, "
+               "escape_inline, escape_leading_cc, escape_spaces, starts_with_cc, bold/italic/roman) are third-party crates outside /repo: they are now TRANSLATED on every run from the cargo "
+               "registry source of exactly the version /repo/Cargo.lock pins (tools/gen_fn_cansi.py, tools/gen_fn_roffcrate.py via tools/thirdparty.py: the registry directory must exist once, "
+               "harness/h-roff/Cargo.lock must name the same version and `cargo metadata --offline` in harness/h-roff must resolve the package to that directory) and PROVED equal to the "
+               "model the C15 theorems use (Proofs/CansiGen.v, Proofs/RoffCrateGen.v, Proofs/RoffDepsGen.v: c15_translated_cansi_*, c15_translated_roffcrate_*, "
+               "c15_translated_dependencies_*); trusted there: the cargo registry copy is the code that is linked (checked through cargo metadata, not by checksum), the std vocabulary "
+               "(str::starts_with / chars().next() / len_utf8 on UTF-8 bytes, str::split(char), str::replace, slicing, Vec as a list, a Vec<u8> writer that never fails); the translated cansi "
+               "equals the hand model on every string of UTF-8 shaped chars (rf_utf8_ok: proved for the encoding of every code-point list), char-wise and byte-wise stepping differ elsewhere; "
+               "the deprecated cansi v2 API, line_iter and roff's From/FromIterator/Extend impls are not used by anstyle-roff and not translated; the differential tie is kept",
                "translator tools/gen_roff.py (cansi->anstyle colour arms, create_effects chain, roff colour names, is_bright list, request names and literals of lib.rs; "
                "cansi's Color/Intensity numbering is fixed in the translator)",
                "Rust std str::replace / str::split transcribed (rf_replace1, rf_replace2, rf_split)"]
